@@ -1,10 +1,12 @@
 """The encoding table: every row of every family, assembled once."""
 from .enc import Table
 from . import ops_dp
+from . import ops_branch
 
 TABLE = Table()
 ops_dp.build_arm(TABLE)
 ops_dp.build_thumb(TABLE)
+ops_branch.build(TABLE)
 
 
 def rows_for(cls_name):
